@@ -18,8 +18,9 @@ def server_cases(chk, n):
     cases, meta = [], []
     k = server_hist.Knobs(n_ops=28, refuse=0.2, actions=0.3, raise_p=0.1, catchall=0.3)
     k.w.update({'junk': 1.5, 'binary': 1.5, 'emit_cb': 2, 'ack': 2, 'session': 2})
-    for i in range(n):
-        cfg, ops = server_hist.gen_history(rng, k)
+    directed = directed_server_histories(rng)
+    for i in range(n + len(directed)):
+        cfg, ops = directed[i - n] if i >= n else server_hist.gen_history(rng, k)
         try:
             rs, ds = srv.run_history(cfg, ops, 'sync', False)
             ra, da = srv.run_history(cfg, ops, 'async', i % 2 == 0)
@@ -38,6 +39,47 @@ def server_cases(chk, n):
                   {'pair': 'Server/AsyncServer', 'ops': [repr(o)[:80] for o in ops[:6]]} if i < 2 else None)
         chk.dist('pair server')
     return cases, meta
+
+
+def directed_server_histories(rng):
+    """Scenarios in which coroutine handlers suspend several times while other work is pending:
+    a transport with several namespaces is lost (or disconnected) and every disconnect / event
+    handler performs two or three emits to rooms that other clients are in.  Per-peer packet order
+    is where a sequential implementation and a concurrent one differ."""
+    out = []
+    for variant in range(6):
+        nss = ['/', '/chat', '/a'][:2 + variant % 2]
+        behav = {}
+        handlers = {}
+        hid = 0
+        for ns in nss:
+            t = {}
+            for ev, arity in (('connect', 2), ('disconnect', 2), ('ev', None)):
+                hid += 1
+                acts = []
+                if ev != 'connect':
+                    acts = [('emit_room', ev + '-first', ns, 'lobby', False), ('emit_room', ev + '-second', 'x', 'lobby', True)]
+                    if variant >= 3:
+                        acts.append(('emit_room', ev + '-third', [1], None, False))
+                else:
+                    acts = [('enter', 'lobby')]
+                behav[hid] = {'arity': arity, 'actions': acts, 'outcome': ('ret', None)}
+                t[ev] = hid
+            handlers[ns] = t
+        cfg = {'handlers': handlers, 'ns_handlers': {}, 'behav': behav, 'namespaces': list(nss),
+               'always_connect': bool(variant % 2), 'serializer': 'default'}
+        ops = [('eio_connect', 'e0', {'REMOTE_ADDR': 'e0'}), ('eio_connect', 'e1', {'REMOTE_ADDR': 'e1'})]
+        for e in ('e0', 'e1'):
+            for ns in nss:
+                ops.append(('msg', e, server_hist.eio_decode(server_hist.frame(0, ns))))
+        ops.append(('msg', 'e0', server_hist.eio_decode(server_hist.frame(2, nss[-1], 5, ['ev', 1]))))
+        if variant % 3 == 2:
+            ops.append(('disconnect', 'S0', nss[0]))
+        ops.append(('close', 'e0', 'transport close'))
+        ops.append(('emit', 'after', 1, 'lobby', None, None, nss[0], None))
+        ops.append(('close', 'e1', 'transport error'))
+        out.append((cfg, ops))
+    return out
 
 
 def generic_cases(chk):
